@@ -670,6 +670,9 @@ func (c *fdCtx) expr(e ast.Expr) string {
 		if c.plainErrorf(e) {
 			return "errors.New(" + c.exprs(args) + ")"
 		}
+		if s, ok := c.tabLen(e); ok {
+			return s // the length of a slice filled by tabulation (rules_t8c10.go)
+		}
 		if s, ok := c.textForm(e); ok {
 			return s // decimal formatting / string building in one form (rules_r4c10.go)
 		}
